@@ -20,6 +20,7 @@ import (
 	"testing"
 	"time"
 
+	"github.com/AdguardTeam/AdGuardHome/internal/verifkit"
 	"github.com/AdguardTeam/dnsproxy/proxy"
 	"github.com/AdguardTeam/dnsproxy/upstream"
 	"github.com/AdguardTeam/golibs/logutil/slogutil"
@@ -292,24 +293,33 @@ func c16Calibrate(t *testing.T, r *c16Runner) {
 
 		return
 	}
-	prx, err := proxy.New(&proxy.Config{
-		Logger:               slogutil.NewDiscardLogger(),
-		TLSListenAddr:        []*net.TCPAddr{{IP: lo}},
-		QUICListenAddr:       []*net.UDPAddr{{IP: lo}},
-		TLSConfig:            &tls.Config{Certificates: []tls.Certificate{cert}, MinVersion: tls.VersionTLS12},
-		UpstreamConfig:       &proxy.UpstreamConfig{Upstreams: []upstream.Upstream{dummy}},
-		BeforeRequestHandler: rec,
-	})
-	if err != nil {
-		rep.Inconcl("calibration: cannot create the proxy: " + err.Error())
-
-		return
-	}
+	// Fixed free ports, never port 0: dnsproxy sets SO_REUSEPORT.
 	ctx := context.Background()
-	if err = prx.Start(ctx); err != nil {
-		rep.Inconcl("calibration: cannot start the proxy: " + err.Error())
+	var prx *proxy.Proxy
+	for try := 0; ; try++ {
+		prx, err = proxy.New(&proxy.Config{
+			Logger:               slogutil.NewDiscardLogger(),
+			TLSListenAddr:        []*net.TCPAddr{{IP: lo, Port: verifkit.FreePort()}},
+			QUICListenAddr:       []*net.UDPAddr{{IP: lo, Port: verifkit.FreePort()}},
+			TLSConfig:            &tls.Config{Certificates: []tls.Certificate{cert}, MinVersion: tls.VersionTLS12},
+			UpstreamConfig:       &proxy.UpstreamConfig{Upstreams: []upstream.Upstream{dummy}},
+			BeforeRequestHandler: rec,
+		})
+		if err != nil {
+			rep.Inconcl("calibration: cannot create the proxy: " + err.Error())
 
-		return
+			return
+		}
+		err = prx.Start(ctx)
+		if err == nil {
+			break
+		}
+		_ = prx.Shutdown(ctx)
+		if try >= 5 || !strings.Contains(err.Error(), "address already in use") {
+			rep.Inconcl("calibration: cannot start the proxy: " + err.Error())
+
+			return
+		}
 	}
 	defer func() { _ = prx.Shutdown(ctx) }()
 
